@@ -516,9 +516,15 @@ pub fn fam_error_texts(b: &Base, out: &mut Vec<CaseSpec>) {
 /// k isolated faults: the first transmission of k different datagrams, each in a different window, is lost; every
 /// loss is repaired by one timeout, so never more than one receive attempt in a row fails
 pub fn fam_isolated(b: &Base, out: &mut Vec<CaseSpec>) {
+    fam_isolated_from(b, 0, out)
+}
+
+/// `fam_isolated` with the first faulty window at block `skip`+1 (e.g. behind a block-number wrap)
+pub fn fam_isolated_from(b: &Base, skip: u64, out: &mut Vec<CaseSpec>) {
     let n = b.spec.nblocks();
     let w = b.spec.w as u64;
-    let windows = (n + w - 1) / w;
+    let skip_windows = (skip + w - 1) / w;
+    let windows = ((n + w - 1) / w).saturating_sub(skip_windows);
     if windows < 7 {
         return;
     }
@@ -528,11 +534,11 @@ pub fn fam_isolated(b: &Base, out: &mut Vec<CaseSpec>) {
             if k > windows {
                 continue;
             }
-            out.push(with(b, "isolated", format!("{k}x{what}"), |s| {
+            out.push(with(b, "isolated", format!("{k}x{what}{}", if skip > 0 { format!("@{skip}") } else { String::new() }), |s| {
                 for i in 0..k {
                     // last block of window i (its ACK) or first block of window i (its DATA)
-                    let first = i * w + 1;
-                    let last = ((i + 1) * w).min(n);
+                    let first = (skip_windows + i) * w + 1;
+                    let last = ((skip_windows + i + 1) * w).min(n);
                     let use_data = what == "data" || (what == "mixed" && i % 2 == 0);
                     if use_data {
                         s.rules.push(Rule::DropFirst { dir: ddir, is_data: true, abs: first, count: 1 });
